@@ -88,6 +88,44 @@ def handleSh (kind : String) (args : List String) : String :=
     match allSome (args.map decodeUtf8) with
     | some (c :: r) => "ok " ++ encodeUtf8 (Sh.toCmdline (c :: r))
     | _ => "bad-request"
+  | "she" =>
+    -- `she <cur k:v,..|-> <ops k:v | k:- ,..> <arg>+`: `Exec::env` / `Exec::env_remove` on top of the parent's environment `cur`
+    match args with
+    | curT :: opsT :: argT =>
+      let pair (t : String) : Option (List Char × Option (List Char)) :=
+        match t.splitOn ":" with
+        | [k, "-"] => (decodeUtf8 k).map (fun k => (k, none))
+        | [k, v] => match decodeUtf8 k, decodeUtf8 v with
+          | some k, some v => some (k, some v)
+          | _, _ => none
+        | _ => none
+      let cur? := if curT = "-" then some [] else allSome ((curT.splitOn ",").map pair)
+      match cur?, allSome ((opsT.splitOn ",").map pair), allSome (argT.map decodeUtf8) with
+      | some cur, some ops, some (c :: r) =>
+        let cur := cur.filterMap (fun kv => kv.2.map (fun v => (kv.1, v)))
+        let cmdEnv := ops.foldl (fun env op => match op.2 with
+          | some v => env ++ [(op.1, v)]
+          | none => env.filter (fun kv => kv.1 != op.1)) cur
+        "ok " ++ encodeUtf8 (Sh.toCmdlineEnv cur cmdEnv (c :: r))
+      | _, _, _ => "bad-request"
+    | _ => "bad-request"
+  | "cmdse" =>
+    match args with
+    | [_, namesT, t] =>
+      match decodeUtf8 t with
+      | none => "bad-request"
+      | some text =>
+        match Sh.parseWithEnv text with
+        | some (as, c :: cs) =>
+          -- the first command sees the assignments (the last one to a name wins), reported for the requested names in order
+          let items := (namesT.splitOn ",").filterMap fun n =>
+            match (as.reverse.find? (fun kv => String.ofList kv.1 == n)) with
+            | some kv => some ('=' :: kv.1 ++ '=' :: kv.2)
+            | none => none
+          "some " ++ showCmds ((c ++ items) :: cs)
+        | some (_, []) => "some "
+        | none => "none"
+    | _ => "bad-request"
   | "shp" =>
     match allSome ((splitStages args).map fun st => allSome (st.map decodeUtf8)) with
     | some stages =>
@@ -579,6 +617,8 @@ def handle (line : String) : String :=
   | "win" :: args => handleWin args
   | "sh" :: args => handleSh "sh" args
   | "shp" :: args => handleSh "shp" args
+  | "she" :: args => handleSh "she" args
+  | "cmdse" :: args => handleSh "cmdse" args
   | "words" :: args => handleSh "words" args
   | "cmds" :: args => handleSh "cmds" args
   | "life" :: args => LifeIO.handle args
